@@ -249,10 +249,30 @@ def programs(tier, seed):
     return out
 
 
+def scale(tier, seed):
+    """
+    256 integer disparities ([-128, 127]) on a 300-column image with dense right masks: per-pixel counters of rejected
+    right candidates go past every 8-bit width (one instance per mask pattern, the smallest image wider than the interval)
+    """
+    out = []
+    i = 0
+    for measure, win in (("sad", 1), ("census", 3)):
+        for rmask in ({"pattern": "all", "value": 2}, {"pattern": "all", "value": 1},
+                      {"pattern": "col", "value": 2, "k": 0}, {"pattern": "checker", "value": 2, "k": 0}):
+            for post in ("", "vm"):
+                sc = _scene(2 + win, 300, win, 1, -128, 127, i, seed, rmask=rmask)
+                sc["measure"] = measure
+                out.append({"scene": sc, "post": post, "lvl": 1})
+                i += 1
+    return out
+
+
 def spaces(tier, seed):
     return [
         {"name": "A0 inputs: no mask, every interval", "level": 0, "cases": level0(tier, seed)},
         {"name": "A1 inputs: one mask cell / dense pattern / one grid cell", "level": 1, "cases": level1(tier, seed)},
+        {"name": "A1 scale: 256 integer disparities on a 300-column image, dense right masks", "level": 1,
+         "cases": scale(tier, seed), "chunk": 1},
         {"name": "B programs: every post-disparity pipeline of the menu on rich scenes", "level": 1,
          "cases": programs(tier, seed), "chunk": 8},
         {"name": "A2 inputs: two mask cells / two grid cells / mask + grid cell", "level": 2, "cases": level2(tier, seed)},
